@@ -490,6 +490,9 @@ func callEntry(r *core.Run, entry int, d delivery, cpool *x509.CertPool, rootLis
 		if cpool == nil {
 			// "no roots": the CLI always needs a root file; an empty file is the closest it can get
 			io.Files["roots.pem"] = nil
+		} else if len(rootList) == 1 && r.Chance(25, "root-file-der") {
+			// the root file may also hold a single DER certificate
+			io.Files["roots.pem"] = rootList[0].Raw
 		}
 		// the root comes from the named file or, when the caller names none, from the well-known
 		// default location, which in that case serves the drawn root set
